@@ -1122,3 +1122,33 @@ Proof.
   { apply batches_of_group_qty; [exact Hokg| |]; apply Forall_forall; intros s Hs; apply Hslots; exact Hs. }
   rewrite Forall_forall in Hq. specialize (Hq b Hb). rewrite Hcg in Hq. exact Hq.
 Qed.
+
+(* ---------- successive builds on one Builder ---------- *)
+Theorem builder_builds_map : forall targets b,
+  builder_builds b targets = (b, map (split (bd_fields b)) targets).
+Proof.
+  induction targets as [|t rest IH]; intros b; [reflexivity|].
+  cbn [builder_builds builder_build map]. rewrite IH. reflexivity.
+Qed.
+
+Corollary builder_builds_c06 b targets :
+  Forall field_typed (bd_fields b) -> Forall (fun t => t < 8) targets ->
+  fst (builder_builds b targets) = b /\
+  Forall2 (fun t out =>
+             out = split (bd_fields b) t /\
+             match out with
+             | Panic => False
+             | Err _ => True
+             | Ok reqs =>
+                 Permutation (concat (map br_fields reqs)) (filter (wanted t) (bd_fields b)) /\
+                 Forall (request_ok t) reqs /\
+                 (forall srv u, fits_one_request t (bd_fields b) srv u ->
+                                (length (filter (dev_req srv u) reqs) <= 1)%nat)
+             end) targets (snd (builder_builds b targets)).
+Proof.
+  intros Hty Hts. rewrite builder_builds_map. cbn [fst snd]. split; [reflexivity|].
+  induction targets as [|t rest IH]; [constructor|].
+  cbn [map]. constructor.
+  - split; [reflexivity|]. apply split_c06; [exact (Forall_inv Hts)|exact Hty].
+  - apply IH. exact (Forall_inv_tail Hts).
+Qed.
